@@ -26,14 +26,21 @@ pub fn finish_strategy(max_props: usize) -> BoxedStrategy<Option<Finish>> {
 
 /// Any strategy incl. simulation (bounded by target_state_count), any thread count, any finish condition.
 pub fn any_cfg(max_props: usize) -> BoxedStrategy<RunCfg> {
+    any_cfg_depth(max_props, false)
+}
+
+/// As `any_cfg`, optionally with a generated `target_max_depth`.
+pub fn any_cfg_depth(max_props: usize, with_depth: bool) -> BoxedStrategy<RunCfg> {
     (
         prop_oneof![2 => Just(0u8), 2 => Just(1u8), 2 => Just(2u8), 3 => Just(3u8)],
         any::<u64>(),
         prop_oneof![3 => Just(1usize), 2 => Just(2usize), 1 => Just(3usize), 1 => Just(4usize)],
         finish_strategy(max_props),
         30usize..300,
+        block_strategy(),
+        proptest::option::weighted(if with_depth { 0.4 } else { 0.0 }, 1usize..7),
     )
-        .prop_map(|(s, seed, threads, finish, target)| {
+        .prop_map(|(s, seed, threads, finish, target, block_size, depth)| {
             let strat = match s {
                 0 => Strat::Bfs,
                 1 => Strat::Dfs,
@@ -45,9 +52,10 @@ pub fn any_cfg(max_props: usize) -> BoxedStrategy<RunCfg> {
                 threads,
                 finish,
                 target_state_count: if matches!(strat, Strat::Sim(_)) { Some(target) } else { None },
-                target_max_depth: None,
+                target_max_depth: depth,
                 timeout_ms: None,
                 symmetry: false,
+                block_size,
             }
         })
         .boxed()
@@ -103,7 +111,7 @@ impl SubCheck for Witnesses {
         p.oob_rate = 45;
         // eventually twice as likely
         p.exps = vec![Exp::Always, Exp::Sometimes, Exp::Eventually, Exp::Eventually];
-        (graph_strategy(p), any_cfg(5)).prop_map(|(g, cfg)| GCase { g, cfg }).boxed()
+        (graph_strategy(p), any_cfg_depth(5, true)).prop_map(|(g, cfg)| GCase { g, cfg }).boxed()
     }
     fn check(&self, case: &GCase, cov: &mut Cov) -> Result<(), Fail> {
         let g = &case.g;
@@ -146,6 +154,7 @@ impl SubCheck for Witnesses {
         }
         cov.label(case.cfg.strat.label());
         cov.label_if(case.cfg.finish.is_some(), "finish_condition_set");
+        cov.label_if(case.cfg.target_max_depth.is_some(), "depth_limit_set");
         cov.label_if(case.cfg.threads > 1, "threads>1");
         if any_len1 && g.props.len() >= 2 {
             cov.nontrivial(&(g, &case.cfg));
@@ -156,7 +165,7 @@ impl SubCheck for Witnesses {
         Ok(())
     }
     fn mandatory(&self) -> Vec<&'static str> {
-        vec!["eventually_discovery/bfs", "eventually_discovery/dfs", "eventually_discovery/on_demand", "eventually_discovery/simulation", "always_discovery", "sometimes_discovery", "finish_condition_set", "threads>1"]
+        vec!["eventually_discovery/bfs", "eventually_discovery/dfs", "eventually_discovery/on_demand", "eventually_discovery/simulation", "always_discovery", "sometimes_discovery", "finish_condition_set", "depth_limit_set", "threads>1"]
     }
 }
 
